@@ -202,9 +202,9 @@ func runMerge(base *storedTable, others []*storedTable, viaBlocks bool) (out *me
 
 var c05keys = []string{"a", "b", "c"}
 
-// branch edit of one key: 0 keep, 1 c1<-p, 2 c1<-q, 3 c2<-p, 4 remove, 5 c1<-p and c2<-p (key in base)
+// branch edit of one key: 0 keep, 1 c1<-p, 2 c1<-q, 3 c2<-p, 4 remove, 5 c1<-p and c2<-p, 6 c1<-'' (key in base)
 //
-//	0 absent, 1 add (p,q), 2 add (q,q), 3 add (p,p)  (key not in base)
+//	0 absent, 1 add (p,q), 2 add (q,q), 3 add (p,p), 4 add ('',q)  (key not in base)
 //
 // column op: 0 none, 1 add column d, 2 remove c2, 3 swap c1 c2, 4 rename c2->e
 type c05branch struct {
@@ -300,6 +300,8 @@ func c05apply(base *ltable, mask int, b c05branch) *ltable {
 			case 4:
 			case 5:
 				t.rows = append(t.rows, mk(k, "p", "p"))
+			case 6:
+				t.rows = append(t.rows, mk(k, "", "y"))
 			}
 		} else {
 			switch e {
@@ -309,6 +311,8 @@ func c05apply(base *ltable, mask int, b c05branch) *ltable {
 				t.rows = append(t.rows, mk(k, "q", "q"))
 			case 3:
 				t.rows = append(t.rows, mk(k, "p", "p"))
+			case 4:
+				t.rows = append(t.rows, mk(k, "", "q"))
 			}
 		}
 	}
@@ -346,6 +350,8 @@ func c05expect(base *ltable, mask int, brs []c05branch) (rows []map[string]strin
 				return true, "x", "p"
 			case 5:
 				return true, "p", "p"
+			case 6:
+				return true, "", "y"
 			}
 			return false, "", ""
 		}
@@ -356,6 +362,8 @@ func c05expect(base *ltable, mask int, brs []c05branch) (rows []map[string]strin
 			return true, "q", "q"
 		case 3:
 			return true, "p", "p"
+		case 4:
+			return true, "", "q"
 		}
 		return false, "", ""
 	}
@@ -477,9 +485,9 @@ func c05Body(nb int, shapes bool) func(c *mc.Ctx) {
 		for j := range brs {
 			for i := range c05keys[:nk] {
 				if mask&(1<<uint(i)) != 0 {
-					brs[j].edits[i] = c.ChooseDev(6)
+					brs[j].edits[i] = c.ChooseDev(7)
 				} else {
-					brs[j].edits[i] = c.ChooseDev(4)
+					brs[j].edits[i] = c.ChooseDev(5)
 				}
 			}
 			if shapes {
@@ -715,7 +723,7 @@ func init() {
 	register(&mc.Check{
 		ID:    "C05",
 		Level: "exploration",
-		Rule: "base: every subset of 3 keys with two value columns, key column first / middle / last; N=2 and N=3 branches (quick: N=3 over two of the keys), each described by per-key edits {keep, set c1 to p or q, set c2, set both cells, remove; add the missing key with one of three rows} and a column operation {none, add column d, remove c2, swap c1 c2, rename c2 to e}; " +
+		Rule: "base: every subset of 3 keys with two value columns, key column first / middle / last; N=2 and N=3 branches (quick: N=3 over two of the keys), each described by per-key edits {keep, set c1 to p or q or the empty string, set c2, set both cells, remove; add the missing key with one of four rows, one with an empty cell} and a column operation {none, add column d, remove c2, swap c1 c2, rename c2 to e}; " +
 			"the base subset is enumerated completely; harness two-branches (and three-branches) stays in the plain shape (keyed, key first, no column operation) and explores edits and filler rows up to d deviations; harness two-branches-shapes explores the tuples that leave it: key position, edits / column ops / keyless tables / 5 or 16 untouched filler rows (several blocks at the scaled block size 3; 16 exceeds the insertion-sort threshold of sort.Slice, so the collector's sort is unstable) are explored up to d deviations from 'no edit'. Each tuple is ingested and merged by the real Merger the way the CLI does (conflicts discarded, removed columns = union, SortedRows and SortedBlocks -> committed table). " +
 			"Oracles: cell model for tuples that keep the column set (exact conflict set and result rows); laws merge(base;X,base)=X, merge(base;X,X)=X, merge(base;X,Y)=merge(base;Y,X) by column name; untouched rows unchanged under their own column names whatever the column ops and key position; SortedRows = SortedBlocks; committed result passes the structural oracle. " +
 			"non-trivial = some branch edits something; distinct by tuple",
